@@ -12,7 +12,7 @@ import (
 func c08Cfg() *DeclCfg {
 	types := []TypeSpec{{K: KString}, {K: KBool}, {K: KBool}, {K: KInt}, {K: KString, W: WSlice}, {K: KBool, W: WSlice}, {K: KFloat64}, {K: KUint8}, {K: KString, W: WMap, MapKey: KString}, {K: KDuration}}
 	return &DeclCfg{
-		MaxDepth: 4, MaxFan: 4, PCmds: 75, Types: types, OptsMin: 1, OptsMax: 3, SubGroupsMax: 1, NestMax: 1,
+		MaxDepth: 4, MaxFan: 4, PCmds: 75, Types: types, OptsMin: 1, OptsMax: 3, SubGroupsMax: 1, PInline: 20, NestMax: 1,
 		PNamespace: 25, PShortOnly: 20, PLongOnly: 20, PClash: 45, PCmdTwin: 25,
 		PPos: 15, PosMax: 2, PRest: 30, PExec: 30, PByTag: 50, PSubOptional: 35, PAliases: 60, PHiddenCmd: 10,
 		ParserOpts: []flags.Options{0, flags.PassDoubleDash, flags.HelpFlag | flags.PassDoubleDash, flags.HelpFlag, flags.PassAfterNonOption, flags.PassAfterNonOption | flags.PassDoubleDash},
